@@ -286,6 +286,9 @@ pub struct CertRecipe {
     pub not_before: i64,
     pub not_after: i64,
     pub nanos: u32,
+    /// UTC offset (minutes) the validity times are expressed in; the instants stay the same
+    #[serde(default)]
+    pub offset_min: i16,
     pub serial: Option<String>, // hex
     pub sans: Vec<SanR>,
     pub dn: DnRecipe,
@@ -306,8 +309,9 @@ pub fn ts(secs: i64, nanos: u32) -> OffsetDateTime {
 impl CertRecipe {
     pub fn build(&self) -> CertificateParams {
         let mut p = CertificateParams::default();
-        p.not_before = ts(self.not_before, self.nanos);
-        p.not_after = ts(self.not_after, 0);
+        let off = time::UtcOffset::from_whole_seconds(self.offset_min as i32 * 60).expect("recipe: offset");
+        p.not_before = ts(self.not_before, self.nanos).to_offset(off);
+        p.not_after = ts(self.not_after, 0).to_offset(off);
         p.serial_number = self.serial.as_ref().map(|h| SerialNumber::from_slice(&simcore::sha256::unhex(h).expect("hex")));
         p.subject_alt_names = self.sans.iter().map(|s| s.build()).collect();
         p.distinguished_name = self.dn.build();
@@ -739,7 +743,13 @@ pub fn gen_cert(r: &mut Rng, sw: &Swarm) -> CertRecipe {
         vec![]
     };
     let sans = if sw.sans {
-        let n = if sw.big && r.chance(1, 3) { r.range(20, 120) } else { r.range(0, 5) };
+        let n = if sw.big && r.chance(1, 12) {
+            r.range(800, 2500) // crosses the 64 KiB mark on its own
+        } else if sw.big && r.chance(1, 3) {
+            r.range(20, 120)
+        } else {
+            r.range(0, 5)
+        };
         let mut v: Vec<SanR> = (0..n).map(|_| gen_san(r)).collect();
         // the same name listed twice is valid input (and what de-duplication logic trips over)
         if v.len() >= 2 && r.chance(1, 6) {
@@ -763,6 +773,11 @@ pub fn gen_cert(r: &mut Rng, sw: &Swarm) -> CertRecipe {
     } else {
         vec![]
     };
+    let mut ekus: Vec<EkuR> = ekus;
+    if ekus.len() >= 1 && r.chance(1, 8) {
+        let d = ekus[r.usize(ekus.len())].clone();
+        ekus.push(d);
+    }
     let custom_exts = if sw.exts && r.chance(1, 2) {
         (0..r.range(1, 3))
             .map(|_| {
@@ -777,9 +792,14 @@ pub fn gen_cert(r: &mut Rng, sw: &Swarm) -> CertRecipe {
     } else {
         vec![]
     };
+    let far = |t: i64| {
+        (t + 631152000).abs() > 3 * 86400 && (t - 2524608000).abs() > 3 * 86400 && t > -30610224000 + 3 * 86400 && t < 253370678400 - 3 * 86400
+    };
+    let offset_min: i16 = if far(t0) && far(t1) && r.chance(1, 5) { *r.pick(&[-720i16, -300, -1, 1, 60, 330, 345, 840]) } else { 0 };
     CertRecipe {
         not_before: t0,
         not_after: t1,
+        offset_min,
         nanos: if r.chance(1, 4) { r.below(1_000_000_000) as u32 } else { 0 },
         serial: if sw.auto_serial && r.chance(1, 2) { None } else { Some(gen_serial_hex(r)) },
         sans,
@@ -831,7 +851,13 @@ pub fn gen_ca_cert(r: &mut Rng, sw: &Swarm) -> CertRecipe {
 pub fn gen_crl(r: &mut Rng, sw: &Swarm) -> CrlRecipe {
     let t0 = gen_time(r);
     let t1 = if r.chance(9, 10) { t0 + r.range(1, 400 * 86400) as i64 } else { t0 - r.range(0, 1000) as i64 };
-    let nrev = if sw.big && r.chance(1, 3) { r.range(50, 400) } else { r.range(0, 4) };
+    let nrev = if sw.big && r.chance(1, 12) {
+        r.range(1500, 2500) // around the 64 KiB mark
+    } else if sw.big && r.chance(1, 3) {
+        r.range(50, 400)
+    } else {
+        r.range(0, 4)
+    };
     CrlRecipe {
         this_update: t0,
         next_update: t1.min(253370678400),
@@ -841,14 +867,24 @@ pub fn gen_crl(r: &mut Rng, sw: &Swarm) -> CrlRecipe {
         } else {
             None
         },
-        revoked: (0..nrev)
-            .map(|_| RevokedR {
-                serial: gen_serial_hex(r),
-                time: gen_time(r),
-                reason: if r.bool() { Some(r.below(10) as u8) } else { None },
-                invalidity: if r.chance(1, 3) { Some(gen_time(r)) } else { None },
-            })
-            .collect(),
+        revoked: {
+            let mut v: Vec<RevokedR> = (0..nrev)
+                .map(|_| RevokedR {
+                    serial: gen_serial_hex(r),
+                    time: gen_time(r),
+                    reason: if r.bool() { Some(r.below(10) as u8) } else { None },
+                    invalidity: if r.chance(1, 3) { Some(gen_time(r)) } else { None },
+                })
+                .collect();
+            // the same serial listed twice, with other details: legal input
+            if !v.is_empty() && r.chance(1, 8) {
+                let mut d = v[r.usize(v.len())].clone();
+                d.time += 1;
+                d.reason = Some(r.below(10) as u8);
+                v.push(d);
+            }
+            v
+        },
         kid: gen_kid(r, sw),
     }
 }
@@ -886,6 +922,7 @@ impl CertRecipe {
         CertRecipe {
             not_before: 1_600_000_000,
             not_after: 1_700_000_000,
+            offset_min: 0,
             nanos: 0,
             serial: Some("01".into()),
             sans: vec![],
@@ -931,6 +968,7 @@ impl CertRecipe {
         reset!(kid);
         reset!(is_ca);
         reset!(nanos);
+        reset!(offset_min);
         reset!(not_before);
         reset!(not_after);
         if self.dn.0.len() > 1 {
